@@ -83,7 +83,7 @@ class C25(SchedProp):
             'combination of one field with the others random; delta_task_held / flow_nums / outputs / prerequisite; '
             'non-trivial = distinct class label per distinct case')
     n_quick = 16
-    n_thorough = 260
+    n_thorough = 160
     workers = 16
 
     # ------------------------------------------------------------------ set up
@@ -153,7 +153,7 @@ class C25(SchedProp):
         pol = c['policy']
         pol['obs_ds'] = True
         pol.pop('inst_off', None)
-        pol['max_steps'] = 100 if tier == 'quick' else 200
+        pol['max_steps'] = 100 if tier == 'quick' else 160
         if kind == 'mix':
             pol.update(cmds=MIX, p_cmd=[0.12, 0.2, 0.3][seed % 3], restarts=[0, 1, 1, 2][seed % 4])
         if kind == 'flows':
@@ -174,7 +174,12 @@ class C25(SchedProp):
         yield from self.unit_cases(tier, rng)
 
     def corpus(self):
-        return []
+        """The witnesses of every recorded finding, whatever its kind: once a finding is marked `fixed` its witness
+        stays in the run as a regression input."""
+        f = Path(__file__).resolve().parents[2] / 'findings' / 'C25.json'
+        if not f.exists():
+            return []
+        return [e['witness'] for e in json.loads(f.read_text()) if 'witness' in e]
 
     # ---- component cases -------------------------------------------------
     POOLS = {
